@@ -17,6 +17,7 @@ if [ -n "${VERIF_REPO_OVERRIDE:-}" ]; then
   cp "$here/go.sum" "$here/.work/go.override.c46e2.$$.sum"
   modflag="-modfile=$here/.work/go.override.c46e2.$$.mod"
   export REPO_ROOT="$VERIF_REPO_OVERRIDE"
+  export VERIF_MODFILE="$here/.work/go.override.c46e2.$$.mod" # the race audit (vlib.RaceAudit) must test the scratch copy too
   bin="$here/.work/bin/c46.override.$$"
   trap 'rm -f "$here/.work/go.override.c46e2.$$.mod" "$here/.work/go.override.c46e2.$$.sum" "$bin" "$here/.work/c46.e2.$$.json"' EXIT
 else
